@@ -290,6 +290,10 @@ func init() {
 			return &t_api.Request{Kind: t_api.HeartbeatTasks, HeartbeatTasks: &t_api.HeartbeatTasksRequest{ProcessId: pick(r, []string{"p1", "p2"})}}
 		}
 	}
+	families["tasks-crash"] = &family{
+		name: "tasks-crash", bgs: []string{"TimeoutPromises", "EnqueueTasks", "TimeoutTasks"}, requests: 18, maxSteps: 55, fault: 0.04, crash: 0.07,
+		timeStep: smallStep, fifo: true, senderOK: 0.6, config: baseConfig, gen: taskGen,
+	}
 	families["tasks"] = &family{
 		name: "tasks", bgs: []string{"TimeoutPromises", "EnqueueTasks", "TimeoutTasks"}, requests: 18, maxSteps: 50, fault: 0.06,
 		timeStep: smallStep, fifo: true, senderOK: 0.6, config: baseConfig, gen: taskGen,
